@@ -35,9 +35,10 @@ WATCHDOG = 10
 WATCHDOG_CONFIRM = 60
 WORKERS = 4
 CORPUS = os.path.join(vlib.ROOT, "corpus", "C13")
-FLAGS = ["snt", "dct", "link", "nest", "fmt", "tag", "dtov", "rtype", "dim", "short", "sizes", "rad"]      # order of AdfCodec.fixes
+FLAGS = ["snt", "dct", "link", "nest", "fmt", "tag", "dtov", "rtype", "dim", "short", "sizes", "rad", "lfile", "lpath", "lnosep"]      # order of AdfCodec.fixes
 FLAG_FIX = {"snt": "01", "dct": "02", "link": "03", "nest": "04", "fmt": "05", "tag": "06", "dtov": "07", "rtype": "08",
-            "dim": "11", "short": "13", "sizes": "14", "rad": "15"}
+            "dim": "11", "short": "13", "sizes": "14", "rad": "15",
+            "lfile": "03", "lpath": "03", "lnosep": "03"}           # the three output-side guards of repair 03, one switch each
 KNOWN_DEFECT_KEY = "adf-subnode-table-count-vs-chunk-length"
 _CFG = {"bits": "0" * len(FLAGS)}
 
@@ -84,7 +85,7 @@ def field_class(desc):
     m = re.match(r"node@\d+: (.*)", desc)
     if m:
         return "node." + re.sub(r"[^a-z]+", "-", re.sub(r"\d+", "", m.group(1).lower())).strip("-")[:30]
-    d = re.split(r"=|->", desc)[0]
+    d = re.split(r"=|->|\[", desc)[0]
     d = re.sub(r"@\d+", "", d)
     d = re.sub(r"\[\d+\]", "", d)
     d = re.sub(r"\d+$", "", d)
@@ -190,8 +191,9 @@ def root_cause(backend, mode, outcome, lines, frames, umsg, fclass, mverdict=Non
                 return "adf:link-payload-length-truncated-to-int"
             if kind == "stack-buffer-overflow" and "ADFI_read_data_chunk" in S:
                 return "adf:link-payload-longer-than-buffer"
-            if kind == "stack-buffer-overflow" and top in ("ADF_Get_Link_Path", "ADF_Link_Size"):
-                return "adf:link-file-part-longer-than-chase-buffer"
+            if kind in ("stack-buffer-overflow", "heap-buffer-overflow", "global-buffer-overflow") and top in ("ADF_Get_Link_Path", "ADF_Link_Size"):
+                # strcpy / strncpy of the file or path part into the caller's buffer; which part: the mutated field says
+                return "adf:link-part-longer-than-destination-buffer:%s" % fclass
         if kind.startswith("negative-size-param") and "ADF_Read_All_Data" in S:
             return "adf:data-chunk-negative-length"
         if kind.startswith("ubsan-left-shift") and S & {"ADFI_convert_integers", "ADFI_convert_number_format"}:
@@ -339,6 +341,11 @@ class AdfFile:
 
         nf = dict((i, (o, n)) for i, o, n in self.fields["node"])
         parent_of = dict((c["target"], c["parent"]) for c in self.children)
+        max_link = 0
+        for nd in self.nodes:
+            if nd["type"] == "4c4b" and not self.old:
+                o0 = nd["pos"] + nf[8][0]
+                max_link = max(max_link, int.from_bytes(d[o0:o0 + 8], "little"))
         for nd in self.nodes:
             p = nd["pos"]; tagn = "node@%d" % p
             tagfield(tagn + ".NoDe", p + nf[0][0]); tagfield(tagn + ".TaiL", p + nf[22][0])
@@ -398,6 +405,27 @@ class AdfFile:
                                    ("to-root", b">/"), ("double-slash", b">//"), ("itself", b">/" + own)]:
                         v = v[:dlen].ljust(dlen, b"\0") if len(v) != dlen else v
                         M.append(("%s.link_payload=%s" % (tagn, lab), "link", [(dp + 16, v)]))
+                    # the text against every buffer that receives it: char[1025] / char[4097] of ADFI_chase_link, link_data[5122],
+                    # the client's buffers (5200 in c13_adf, cgio_link_size + 1 in c13_io) -- lengths at and around each size,
+                    # with the separator as written / missing / first / last / making each part exactly fit and exceed by one
+                    if dlen >= 1100:
+                        core = dlen == max_link
+                        seps = [k for k in range(dlen) if pay[k:k + 1] == b">"]
+                        dimenc = (lambda v: v.to_bytes(8, "little" if int(self.attr["fmt"]) == 76 else "big")) if not self.old else (lambda v: b"%08X" % v)
+                        for L in sorted(set([1023, 1024, 1025, 1026, 4095, 4096, 4097, 4098, 5119, 5120, 5121, dlen - 1, dlen, dlen + 1])):
+                            if L < 3 or L > dlen + 1:
+                                continue
+                            Lp = min(L, dlen)
+                            nosep = [(dp + 16 + k, b"F") for k in seps if k < Lp]
+                            arr = [("as-written", []), ("missing", nosep), ("first", nosep + [(dp + 16, b">")]),
+                                   ("last", nosep + [(dp + 16 + Lp - 1, b">")])]
+                            for lab, k in (("file-part-1024", 1024), ("file-part-1025", 1025), ("path-part-4096", Lp - 4097),
+                                           ("path-part-4097", Lp - 4098)):
+                                if 0 < k < Lp - 1:
+                                    arr.append((lab, [x for x in nosep if x[0] != dp + 16 + k] + [(dp + 16 + k, b">")]))
+                            for lab, pp in arr:
+                                cls = "linkbuf-core" if core and L in (1025, 4097, 4098, dlen) else "linkbuf"
+                                M.append(("%s.link_text[len=%d,sep=%s]" % (tagn, L, lab), cls, ([(o0, dimenc(L))] if L != dlen else []) + pp))
         # sub-node tables
         for t in self.snts:
             p = t["pos"]; tagn = "snt@%d" % p
@@ -713,7 +741,7 @@ def run(ck):
 
     state, how = {}, {}
     # a switch whose witness is masked by another repair is looked at after that one
-    for fl in ["snt", "dct", "link", "nest", "fmt", "tag", "rtype", "dtov", "dim", "sizes", "rad", "short"]:
+    for fl in ["snt", "dct", "link", "lfile", "lpath", "lnosep", "nest", "fmt", "tag", "rtype", "dtov", "dim", "sizes", "rad", "short"]:
         ws = [w for w in mw if w["flag"] == fl]
         s0 = dict(state); s0[fl] = False
         s1 = dict(state); s1[fl] = True
@@ -835,6 +863,8 @@ def run(ck):
             keep = []
             for cls, lst in sorted(by.items()):
                 share = max(40 if big else 8, int(quota * len(lst) / len(muts)))
+                if cls.endswith("-core") or (big and cls == "linkbuf"):
+                    share = len(lst)                      # the boundary grid of the largest link: never sampled away
                 keep += lst if len(lst) <= share else rng.sample(lst, share)
             muts = keep
         stats["files"][name] = {"len": len(data), "nodes": len(af.nodes), "field_mutants": len(muts), "field_mutants_generated": n_all,
